@@ -1,38 +1,94 @@
 #!/usr/bin/env python3
-"""usage: tools/seedmatrix.py [names...]   (default: every directory under /verif/seeded)
+"""usage: tools/seedmatrix.py [--lanes N] [names...]   (default: every directory under /verif/seeded)
 Re-runs, for each stored seeded change, the quick check of the checks recorded as catching it (caught_by or
-caught_by_after_strengthening; default: the seed's own property) against /repo with the change applied, and records
-the outcome as final_run in the seed's meta.json. /repo is restored after every seed. Prints one line per seed."""
-import json, os, subprocess, sys, time
-names = sys.argv[1:] or sorted(d for d in os.listdir("/verif/seeded") if os.path.isdir("/verif/seeded/" + d))
-def sh(c):
-    p = subprocess.run(c, shell=True, cwd="/verif", stdout=subprocess.PIPE, stderr=subprocess.STDOUT, text=True)
+caught_by_after_strengthening; default: the seed's own property) against the engine with the change applied, and
+records the outcome as final_run in the seed's meta.json. Prints one line per seed.
+
+Without --lanes the change is applied to /repo itself (restored after every seed). With --lanes N the work is split
+over N private lanes under /tmp/mlane<i>: each lane is a git worktree of /repo's HEAD plus a copy of /verif whose
+harness go.mod points at that worktree, so /repo and /verif stay untouched while the matrix runs; lanes are removed
+at the end and the final_run records are merged back into /verif/seeded/*/meta.json."""
+import json, os, subprocess, sys, time, shutil
+
+args = sys.argv[1:]
+LANES = 0
+if "--lanes" in args:
+    i = args.index("--lanes"); LANES = int(args[i + 1]); del args[i:i + 2]
+LANE = None
+if "--lane-worker" in args:  # internal: --lane-worker <verifdir> <repodir>
+    i = args.index("--lane-worker"); LANE = (args[i + 1], args[i + 2]); del args[i:i + 3]
+VERIF, REPO = LANE if LANE else ("/verif", "/repo")
+names = args or sorted(d for d in os.listdir("/verif/seeded") if os.path.isdir("/verif/seeded/" + d))
+
+def sh(c, cwd=None):
+    p = subprocess.run(c, shell=True, cwd=cwd or VERIF, stdout=subprocess.PIPE, stderr=subprocess.STDOUT, text=True)
     return p.returncode, p.stdout
-head = sh("git -C /repo log --format=%h -1")[1].strip()
-missed = []
-for name in names:
-    d = "/verif/seeded/" + name
-    meta = json.load(open(d + "/meta.json"))
-    checks = meta.get("caught_by_after_strengthening") or meta.get("caught_by") or [meta["property"]]
-    rc, out = sh("git -C /repo diff --quiet && (git -C /repo apply %s/patch.diff 2>/dev/null || git -C /repo apply --3way %s/patch.diff)" % (d, d))
+
+def restore():
+    sh("git -C %s reset -q; git -C %s checkout -q -- . ; git -C %s clean -fdq -- ." % (REPO, REPO, REPO))
+
+def worker(names):
+    head = sh("git -C %s log --format=%%h -1" % REPO)[1].strip()
+    missed = []
+    for name in names:
+        d = VERIF + "/seeded/" + name
+        meta = json.load(open(d + "/meta.json"))
+        checks = meta.get("caught_by_after_strengthening") or meta.get("caught_by") or [meta["property"]]
+        rc, out = sh("git -C %s diff --quiet && (git -C %s apply %s/patch.diff 2>/dev/null || git -C %s apply --3way %s/patch.diff)" % (REPO, REPO, d, REPO, d))
+        if rc != 0:
+            restore()
+            print(name, "DOES NOT APPLY to", head, flush=True); meta["final_run"] = {"repo_head": head, "applies": False}
+            json.dump(meta, open(d + "/meta.json", "w"), indent=1); continue
+        caught, runs = [], {}
+        try:
+            for c in checks:
+                t0 = time.time()
+                rc, out = sh("./check %s quick" % c)
+                viol = [l for l in out.splitlines() if l.startswith("VIOLATION")]
+                runs[c] = {"rc": rc, "wall_s": round(time.time() - t0, 1), "violation_line": (viol[0].replace(VERIF, "/verif") if viol else None)}
+                if rc == 1:
+                    caught.append(c)
+        finally:
+            restore()
+        meta["final_run"] = {"repo_head": head, "applies": True, "runs": runs, "caught_by": caught}
+        json.dump(meta, open(d + "/meta.json", "w"), indent=1)
+        print(name, "caught by", caught if caught else "NOTHING", flush=True)
+        if not caught:
+            missed.append(name)
+    print("missed:", missed, flush=True)
+
+if not LANES:
+    worker(names)
+    sys.exit(0)
+
+# ---- lanes
+procs = []
+for i in range(LANES):
+    base = "/tmp/mlane%d" % i
+    sh("git -C /repo worktree remove --force %s/repo 2>/dev/null; rm -rf %s; mkdir -p %s" % (base, base, base), "/")
+    rc, out = sh("git -C /repo worktree add -q --detach %s/repo HEAD" % base, "/")
     if rc != 0:
-        sh("git -C /repo reset -q; git -C /repo checkout -q -- . ; git -C /repo clean -fdq -- .")
-        print(name, "DOES NOT APPLY to", head); meta["final_run"] = {"repo_head": head, "applies": False}
-        json.dump(meta, open(d + "/meta.json", "w"), indent=1); continue
-    caught, runs = [], {}
-    try:
-        for c in checks:
-            t0 = time.time()
-            rc, out = sh("./check %s quick" % c)
-            viol = [l for l in out.splitlines() if l.startswith("VIOLATION")]
-            runs[c] = {"rc": rc, "wall_s": round(time.time() - t0, 1), "violation_line": (viol[0] if viol else None)}
-            if rc == 1:
-                caught.append(c)
-    finally:
-        sh("git -C /repo reset -q; git -C /repo checkout -q -- . ; git -C /repo clean -fdq -- .")
-    meta["final_run"] = {"repo_head": head, "applies": True, "runs": runs, "caught_by": caught}
-    json.dump(meta, open(d + "/meta.json", "w"), indent=1)
-    print(name, "caught by", caught if caught else "NOTHING", flush=True)
-    if not caught:
-        missed.append(name)
-print("missed:", missed)
+        print(out); sys.exit(2)
+    sh("rsync -a --exclude .git --exclude .bin --exclude .out --exclude 'replays/*.json' /verif/ %s/verif/" % base, "/")
+    gm = base + "/verif/harness/go.mod"
+    s = open(gm).read().replace("=> /repo", "=> %s/repo" % base)
+    open(gm, "w").write(s)
+    shutil.copy("/repo/go.sum", base + "/verif/harness/go.sum")
+    mine = names[i::LANES]
+    log = open("%s/lane.log" % base, "w")
+    procs.append((i, base, mine, subprocess.Popen([sys.executable, base + "/verif/tools/seedmatrix.py", "--lane-worker", base + "/verif", base + "/repo"] + mine, stdout=log, stderr=subprocess.STDOUT)))
+for i, base, mine, p in procs:
+    p.wait()
+    sys.stdout.write(open(base + "/lane.log").read()); sys.stdout.flush()
+    for name in mine:
+        try:
+            lm = json.load(open("%s/verif/seeded/%s/meta.json" % (base, name)))
+        except Exception as ex:
+            print(name, "lane result unreadable:", ex); continue
+        if "final_run" in lm:
+            path = "/verif/seeded/%s/meta.json" % name
+            m = json.load(open(path)); m["final_run"] = lm["final_run"]
+            json.dump(m, open(path, "w"), indent=1)
+    sh("git -C /repo worktree remove --force %s/repo; rm -rf %s" % (base, base), "/")
+sh("git -C /repo worktree prune", "/")
+print("done")
